@@ -1,6 +1,8 @@
 import XalanModel.C19.Ledger
 import XalanModel.C19.XVec
 import XalanModel.C19.XList
+import XalanModel.C19.Arena
+import XalanModel.C19.XDeque
 import Driver.Util
 /-
 xm_c19: (a) replays container operation logs on the allocation-explicit models (same request lines as
@@ -24,6 +26,10 @@ structure St where
   list : XList := {}
   vec : XVec := {}
   created : List (Nat × Nat) := []     -- (object block, its sub-block) made by rtc / ctp
+  arena : Option Arena := none
+  skipPending : Bool := false
+  deque : XDeque := { bs := 1 }
+  popNull : Bool := false
   dead : Bool := false
   trace : Option Ledger := none        -- trace mode: ledger so far (none = trace rejected)
   inTrace : Bool := false
@@ -54,12 +60,65 @@ def idiomReply (s : St) (r : Out × XVec × Option Nat × Ledger) : St × String
   let created := match r.2.2.1 with | some o => (o, o + 1) :: s.created | none => s.created
   ({ s with vec := r.2.1, l := r.2.2.2, created := created }, tail r.2.2.2 r.1 (showVec r.2.1))
 
+def showArena (a : Arena) (full : Bool) : String :=
+  (if full then "full " else "") ++
+  String.join (a.slots.map fun sl => match sl with | some (v, _) => s!"o{v} " | none => "- ") ++
+  s!"cnt={a.count} pend={if a.pending then 1 else 0} ff={a.freeList.head?.getD a.size}"
+
+def arenaStep (s : St) : List String → St × String
+  | ["new", n] => match n.toNat? with
+    | some n =>
+      let r := Arena.create n s.l
+      match r.1 with
+      | some a => ({ s with arena := some a, l := r.2 }, tail r.2 .ok (showArena a false))
+      | none => ({ s with arena := none, l := r.2 }, tail r.2 .oom "none")
+    | none => (s, "bad")
+  | ["create", x] => match x.toInt?, s.arena with
+    | some x, some a =>
+      let r := a.construct x s.l
+      ({ s with arena := some r.2.2.1, l := r.2.2.2, dead := r.1 == .ub }, tail r.2.2.2 r.1 (showArena r.2.2.1 r.2.1))
+    | _, _ => (s, "bad")
+  | ["destroy", i] => match i.toNat?, s.arena with
+    | some i, some a =>
+      let r := a.destroyObject i s.l
+      ({ s with arena := some r.2.1, l := r.2.2, dead := r.1 == .ub }, tail r.2.2 r.1 (showArena r.2.1 false))
+    | _, _ => (s, "bad")
+  | ["free"] => match s.arena with
+    | some a =>
+      let r := a.destroy s.skipPending s.l
+      if r.1 == .ub then ({ s with dead := true }, tail s.l .ub (showArena a false))
+      else ({ s with arena := none, l := r.2 }, tail r.2 .ok "destroyed")
+    | none => (s, "bad")
+  | _ => (s, "bad")
+
+def showDeque (d : XDeque) : String :=
+  s!"idx={d.idx.items.length} free={d.freeV.items.length} :" ++ String.join (d.elems.map fun x => s!" {x}")
+
+def dequeStep (s : St) : List String → St × String
+  | ["new", n] => match n.toNat? with
+    | some n => ({ s with deque := { bs := n } }, tail s.l .ok (showDeque { bs := n }))
+    | none => (s, "bad")
+  | ["push", x] => match x.toInt? with
+    | some x =>
+      let r := s.deque.pushBack s.popNull x s.l
+      ({ s with deque := r.2.1, l := r.2.2, dead := r.1 == .ub }, tail r.2.2 r.1 (showDeque r.2.1))
+    | none => (s, "bad")
+  | ["size"] =>
+    let r := s.deque.size
+    ({ s with dead := r.1 == .ub }, tail s.l r.1 (if r.1 == .ub then showDeque s.deque else s!"size={r.2}"))
+  | ["destroy"] =>
+    let l1 := s.deque.destroy s.l
+    ({ s with deque := { bs := 1 }, l := l1 }, tail l1 .ok "destroyed")
+  | _ => (s, "bad")
+
 def step (s : St) (ws : List String) : St × String :=
   match ws with
   | ["cfg", a, b] => ({ s with cfg := ⟨a == "1", b == "1"⟩ }, "cfg")
+  | ["cfg", a, b, c] => ({ s with cfg := ⟨a == "1", b == "1"⟩, skipPending := c == "1" }, "cfg")
+  | ["cfg", a, b, c, d] => ({ s with cfg := ⟨a == "1", b == "1"⟩, skipPending := c == "1", popNull := d == "1" }, "cfg")
   | ["new", k] =>
     match k.toNat? with
-    | some k => ({ cfg := s.cfg, l := { failAt := k } }, "new")
+    | some k => ({ cfg := s.cfg, skipPending := s.skipPending, popNull := s.popNull, l := { failAt := k } }, "new")
     | none => (s, "bad")
   | ["ledger"] => ({ s with trace := some {}, inTrace := true }, "ledger")
   | ["alloc", id] => match id.toNat? with
@@ -83,8 +142,8 @@ def step (s : St) (ws : List String) : St × String :=
     | ["l", "pushf", x] => match x.toInt? with
       | some x => listReply s (s.list.pushFront s.cfg x s.l)
       | none => (s, "bad")
-    | ["l", "popf"] => listReply s (s.list.popFront s.l)
-    | ["l", "popb"] => listReply s (s.list.popBack s.l)
+    | ["l", "popf"] => listReply s (s.list.popFront s.cfg s.l)
+    | ["l", "popb"] => listReply s (s.list.popBack s.cfg s.l)
     | ["l", "clear"] => listReply s (s.list.clear s.cfg s.l)
     | ["l", "empty"] => listReply s (s.list.isEmpty s.cfg s.l)
     | ["l", "destroy"] =>
@@ -101,6 +160,8 @@ def step (s : St) (ws : List String) : St × String :=
     | ["v", "clear"] => vecReply s (s.vec.clear s.l)
     | ["v", "rtc"] => idiomReply s (reserveThenCreate createThing s.vec s.l)
     | ["v", "ctp"] => idiomReply s (createThenPush createThing s.vec s.l)
+    | "a" :: rest => arenaStep s rest
+    | "d" :: rest => dequeStep s rest
     | ["v", "destroy"] =>
       -- ~XalanTransformer: XalanDestroy every object the vector holds, then ~XalanVector
       let held := s.created.filter fun c => s.vec.items.contains (Int.ofNat c.1)
